@@ -84,7 +84,7 @@ class Harness:
         return 'extern "C" %s H_%s(%s)\n{\n%s\n}\n' % (self.ret or "void", self.name, ", ".join(params), self.body)
 
 
-def build(harnesses, tag, extra=(), ndebug=True, per_tu=12, opt="-O2", includes=INCLUDES, callees=False):
+def build(harnesses, tag, extra=(), ndebug=True, per_tu=12, opt="-O2", includes=INCLUDES, callees=False, dump_all=False):
     """Compile harnesses to IR (sharded, parallel) and attach ir JSON to each.
     A harness whose TU does not compile is recompiled alone; if it still fails
     its .error holds the diagnostics (a fact for the rule, not a tool failure)."""
@@ -103,7 +103,7 @@ def build(harnesses, tag, extra=(), ndebug=True, per_tu=12, opt="-O2", includes=
         ok, err, cmd = ir.clang_ir(src, ll, extra=extra, ndebug=ndebug, opt=opt)
         if not ok:
             return False, err, None
-        j = ir.irdump(ll, prefixes=("H_",), callees=callees)
+        j = ir.irdump(ll, prefixes=("H_",), callees=callees, all_=dump_all)
         os.unlink(ll)
         os.unlink(src)
         return True, err, j
